@@ -295,3 +295,45 @@ func VerifC20_Determinism(h *zz.H) {
 		h.Assert(proto.Equal(r1.(*fpb.Value), r2.(*fpb.Value)), "C20: same configuration and same non-zero seed emit identical sequences")
 	}
 }
+
+// VerifC20_Reuse: a second generator built later from the SAME configuration objects and seed
+// (what a second Subscribe or a Poll does in the fake agent) emits the same sequence as the first:
+// building and running a generator must not change the configuration it was built from.
+func VerifC20_Reuse(h *zz.H) {
+	V, N := h.Param("V", 1), h.Param("N", 3)
+	kmin, kmax := h.Param("KMIN", 0), h.Param("KMAX", 9)
+	seed := h.Int64("seed")
+	h.Assume(seed != 0)
+	var cfg []*fpb.Value
+	var reps []int32
+	for i := 0; i < V; i++ {
+		name := []string{"a", "b", "c"}[i]
+		c := c20Value(h, name, h.Range(name+"_kind", kmin, kmax))
+		h.Assume(c.Timestamp.Timestamp < c20Big && c.Timestamp.DeltaMax < c20Big)
+		cfg = append(cfg, c)
+		reps = append(reps, c.Repeat)
+	}
+	run := func() []*fpb.Value {
+		q := New(false, seed, cfg)
+		var out []*fpb.Value
+		for k := 0; k < N; k++ {
+			r, err := q.Next()
+			if err != nil || r == nil {
+				break
+			}
+			out = append(out, proto.Clone(r.(*fpb.Value)).(*fpb.Value))
+		}
+		return out
+	}
+	first := run()
+	for i, c := range cfg {
+		h.Assert(c.Repeat == reps[i], "C20: running a generator leaves the configuration's repeat counts unchanged")
+	}
+	second := run()
+	h.Assert(len(first) == len(second), "C20: a generator rebuilt from the same configuration and seed emits as many updates")
+	if len(first) == len(second) {
+		for k := range first {
+			h.Assert(proto.Equal(first[k], second[k]), "C20: a generator rebuilt from the same configuration and seed emits the identical sequence")
+		}
+	}
+}
